@@ -10,6 +10,7 @@ import ClairModel.Proofs.TarFSSub
 import ClairModel.Proofs.TarFSExtract
 import ClairModel.Proofs.TarFSReject
 import ClairModel.Proofs.TarFSDir
+import ClairModel.Proofs.LayerFS
 
 -- every variable of a property statement is bound explicitly: a misspelt name is an error, not a new variable
 set_option autoImplicit false
@@ -342,5 +343,44 @@ theorem link_free_rejected_or_same (ms : List Member)
     (hk : ∀ m ∈ ms, m.kind = .dir ∨ m.kind = .reg) (hx : extract ms = none) :
     ∃ e, newFS ms = .error e :=
   newFS_plain_fail ms hk hx
+
+/-- Layer.FS is the view: `Layer.Init` with any of the six OCI tar media types
+    (and a digest that parses) on a fresh Layer succeeds exactly when New does;
+    the Layer then hands out that view and a Reader. -/
+theorem layer_fs_is_view (mt : String) (ms : List Member) (fs : FS)
+    (hmt : mt ∈ tarMediaTypes) (hnew : newFS ms = .ok fs) :
+    ∃ st, layerInit {} mt true ms = (st, none) ∧ layerFS st = .ok fs ∧ layerReader st = none :=
+  ⟨_, layerInit_view mt ms fs hmt hnew, by simp [layerFS], by simp [layerReader]⟩
+
+/-- An archive New rejects leaves the Layer uninitialised: the error class of
+    New comes through, and FS, Reader and Close all refuse. -/
+theorem layer_rejected_archive (mt : String) (ms : List Member) (e : Err)
+    (hmt : mt ∈ tarMediaTypes) (hnew : newFS ms = .error e) :
+    ∃ st, layerInit {} mt true ms = (st, some (.view e)) ∧ layerFS st = .error .uninit ∧
+      layerReader st = some .uninit ∧ (layerClose st).2 = .err :=
+  ⟨_, layerInit_reject mt ms e hmt hnew, by simp [layerFS], by simp [layerReader], by simp [layerClose]⟩
+
+/-- Any other media type is refused and leaves the Layer uninitialised. -/
+theorem layer_unknown_media_refused (mt : String) (ms : List Member) (hmt : mt ∉ tarMediaTypes) :
+    (layerInit {} mt true ms).2 = some .media ∧ (layerInit {} mt true ms).1.init = false :=
+  layerInit_other mt ms hmt
+
+/-- Init on an initialised Layer is refused and changes nothing; the first
+    Close succeeds and keeps the view, the second panics. -/
+theorem layer_init_twice_refused (st : LayerSt) (mt : String) (d : Bool) (ms : List Member)
+    (h : st.init = true) : layerInit st mt d ms = (st, some .twice) :=
+  layerInit_twice st mt d ms h
+
+theorem layer_close_once (st : LayerSt) (hi : st.init = true) (hc : st.closed = false) :
+    (layerClose st).2 = .ok ∧ (layerClose (layerClose st).1).2 = .panic ∧
+      layerFS (layerClose st).1 = layerFS st :=
+  layerClose_once st hi hc
+
+/-- Layer.Files returns only names that were asked for (normalised to the
+    archive root), each with what `fs.ReadFile` of the view yields for it. -/
+theorem layer_files_sound (fs : FS) (paths : List Bytes) (cap : Nat) (l : List (Bytes × Bytes))
+    (h : layerFiles fs paths cap = .found l) :
+    ∀ x ∈ l, x.1 ∈ paths.map normalizeIn ∧ readFileFS fs x.1 = .ok x.2 :=
+  layerFiles_sound fs paths cap l h
 
 end ClairModel.Props.C11
